@@ -250,6 +250,203 @@ Section LayerA.
   Qed.
 End LayerA.
 
+
+(** ** the per-import dedupe of the repaired plug.rs ([unique_exports]) *)
+Definition is_exact (m : name) (p : name * name) : bool := N.eqb (fst p) m && N.eqb (snd p) m.
+Definition targets (m : name) (p : name * name) : bool := N.eqb (snd p) m.
+Definition pick (l : list (name * name)) (m : name) : option name :=
+  if existsb (is_exact m) l then Some m
+  else match find (targets m) l with Some p => Some (fst p) | None => None end.
+
+Lemma find_app_ {A} (f : A -> bool) l l' :
+  find f (l ++ l') = match find f l with Some x => Some x | None => find f l' end.
+Proof. induction l as [|x l IH]; cbn; [reflexivity|]. destruct (f x); auto. Qed.
+
+Ltac dex l H := match goal with |- context [existsb ?f l] => destruct (existsb f l) eqn:H end.
+Ltac dfi l H := match goal with |- context [find ?f l] => destruct (find f l) eqn:H end.
+
+Lemma pick_in l m e : pick l m = Some e -> In (e, m) l.
+Proof.
+  unfold pick. dex l E.
+  - intros Q. injection Q as <-. apply existsb_exists in E. destruct E as ([a b] & I & P). unfold is_exact in P. cbn in P.
+    apply andb_prop in P. destruct P as (A & B). apply N.eqb_eq in A, B. subst. exact I.
+  - dfi l F; [|discriminate]. destruct p as [a b]. intros Q. injection Q as <-.
+    apply find_some in F. destruct F as (I & B). unfold targets in B. cbn in B. apply N.eqb_eq in B. subst. exact I.
+Qed.
+
+Lemma pick_none l m e : pick l m = None -> ~ In (e, m) l.
+Proof.
+  unfold pick. dex l E; [discriminate|]. dfi l F; [discriminate|].
+  intros _ I. apply (find_none _ _ F) in I. unfold targets in I. cbn in I. rewrite N.eqb_refl in I. discriminate.
+Qed.
+
+Lemma pick_snoc l e1 m1 m :
+  pick (l ++ [(e1, m1)]) m =
+  if N.eqb m1 m then (if N.eqb e1 m1 then Some m1 else match pick l m with Some v => Some v | None => Some e1 end)
+  else pick l m.
+Proof.
+  unfold pick. rewrite existsb_app, find_app_. cbn [existsb find]. rewrite orb_false_r.
+  change (is_exact m (e1, m1)) with (N.eqb e1 m && N.eqb m1 m). change (targets m (e1, m1)) with (N.eqb m1 m).
+  destruct (N.eqb_spec m1 m) as [->|NE].
+  - rewrite andb_true_r. destruct (N.eqb_spec e1 m) as [->|NE1].
+    + rewrite orb_true_r. reflexivity.
+    + rewrite orb_false_r. dex l E; [reflexivity|]. dfi l F; reflexivity.
+  - rewrite andb_false_r, orb_false_r. dex l E; [reflexivity|]. dfi l F; reflexivity.
+Qed.
+
+Lemma replace_first_snd m e acc : map snd (replace_first m e acc) = map snd acc.
+Proof. induction acc as [|[e0 m0] r IH]; cbn; [reflexivity|]. destruct (N.eqb m0 m); cbn; congruence. Qed.
+
+Lemma replace_first_in m1 e1 acc e m : NoDup (map snd acc) ->
+  (In (e, m) (replace_first m1 e1 acc) <->
+   (m = m1 /\ e = e1 /\ In m1 (map snd acc)) \/ (m <> m1 /\ In (e, m) acc)).
+Proof.
+  induction acc as [|[e0 m0] r IH]; cbn [replace_first map snd In]; intros ND; [tauto|].
+  inversion ND as [|? ? NI ND']; subst. destruct (N.eqb_spec m0 m1) as [->|NE].
+  - cbn [In]. split.
+    + intros [Q|Q]; [injection Q as <- <-; left; auto|]. right. split; [|auto].
+      intros ->. apply NI. apply (in_map snd) in Q. exact Q.
+    + intros [(-> & -> & _)|(NEm & [Q|Q])]; [left; reflexivity| |right; exact Q]. injection Q as _ Q. congruence.
+  - cbn [In]. rewrite (IH ND'). split.
+    + intros [Q|[(A & B & C)|(A & B)]]; [injection Q as <- <-; right; split; [congruence|auto]|left; auto|right; auto].
+    + intros [(A & B & [C|C])|(A & [Q|Q])]; [congruence|right; left; auto|left; exact Q|right; right; auto].
+Qed.
+
+Lemma nodup_snoc {A} (l : list A) a : NoDup l -> ~ In a l -> NoDup (l ++ [a]).
+Proof.
+  induction l as [|x l IH]; cbn; intros ND NI; [constructor; [tauto|constructor]|].
+  inversion ND as [|? ? NIx ND']; subst. constructor; [|apply IH; tauto].
+  rewrite in_app_iff. cbn. intros [Q|[Q|[]]]; [tauto|]. apply NI. left. symmetry. exact Q.
+Qed.
+
+Lemma unique_pairs_spec l :
+  NoDup (map snd (unique_pairs l)) /\ forall m e, In (e, m) (unique_pairs l) <-> pick l m = Some e.
+Proof.
+  induction l as [|[e1 m1] l (ND & IH)] using rev_ind.
+  - split; [constructor|]. intros m e. cbn. split; [intros []|discriminate].
+  - unfold unique_pairs in *. rewrite fold_left_app. cbn [fold_left]. set (U := fold_left unique_step l []) in *.
+    assert (MEM : In m1 (map snd U) <-> exists e0, pick l m1 = Some e0).
+    { split.
+      - intros Q. apply in_map_iff in Q. destruct Q as ([e0 m0] & E & I). cbn in E. subst m0. exists e0. apply IH. exact I.
+      - intros (e0 & Q). apply IH in Q. apply (in_map snd) in Q. exact Q. }
+    unfold unique_step. cbn [fst snd].
+    destruct (existsb (fun p => N.eqb (snd p) m1) U) eqn:T.
+    + assert (I1 : In m1 (map snd U)).
+      { apply existsb_exists in T. destruct T as (p & I & Q). apply N.eqb_eq in Q. subst m1. apply in_map. exact I. }
+      destruct (proj1 MEM I1) as (e0 & P0).
+      destruct (N.eqb_spec e1 m1) as [->|NE1].
+      * split; [rewrite replace_first_snd; exact ND|]. intros m e. rewrite (replace_first_in _ _ _ _ _ ND), pick_snoc, N.eqb_refl.
+        destruct (N.eqb_spec m1 m) as [<-|NE].
+        -- split; [intros [(_ & -> & _)|(Q & _)]; [reflexivity|congruence]|intros Q; injection Q as <-; left; auto].
+        -- rewrite <- IH. split; [intros [(Q & _)|(_ & Q)]; [congruence|exact Q]|intros Q; right; split; [congruence|exact Q]].
+      * split; [exact ND|]. intros m e. rewrite pick_snoc. destruct (N.eqb_spec m1 m) as [<-|NE]; [|apply IH].
+        destruct (N.eqb_spec e1 m1); [congruence|]. rewrite P0. rewrite IH, P0. tauto.
+    + assert (N1 : ~ In m1 (map snd U)).
+      { intros Q. apply in_map_iff in Q. destruct Q as (p & E & I).
+        assert (existsb (fun p => N.eqb (snd p) m1) U = true); [|congruence].
+        apply existsb_exists. exists p. split; [exact I|]. apply N.eqb_eq. exact E. }
+      assert (P0 : pick l m1 = None).
+      { destruct (pick l m1) as [e0|] eqn:Q; [|reflexivity]. exfalso. apply N1. apply MEM. eauto. }
+      split; [rewrite map_app; apply nodup_snoc; assumption|]. intros m e. rewrite in_app_iff, pick_snoc. cbn [In].
+      destruct (N.eqb_spec m1 m) as [<-|NE].
+      * rewrite P0. split.
+        -- intros [Q|[Q|[]]]; [exfalso; apply N1; apply (in_map snd) in Q; exact Q|]. injection Q as <-.
+           destruct (N.eqb_spec e1 m1); congruence.
+        -- intros Q. right. left. destruct (N.eqb_spec e1 m1); congruence.
+      * rewrite <- IH. split; [intros [Q|[Q|[]]]; [exact Q|congruence]|auto].
+Qed.
+
+Lemma unique_pairs_incl l e m : In (e, m) (unique_pairs l) -> In (e, m) l.
+Proof. intros I. apply pick_in. apply (proj2 (unique_pairs_spec l)). exact I. Qed.
+
+Lemma nodup_fst_of_snd {B} (raw l : list (name * B)) :
+  NoDup (map fst raw) -> (forall p, In p l -> In p raw) -> NoDup (map snd l) -> NoDup (map fst l).
+Proof.
+  intros NR. induction l as [|[a b] r IH]; cbn; intros INC ND; [constructor|].
+  inversion ND as [|? ? NI ND']; subst. constructor; [|apply IH; auto].
+  intros Q. apply in_map_iff in Q. destruct Q as ([a' b'] & E & I). cbn in E. subst a'.
+  assert (b' = b) by (eapply nodup_fst_inj; [exact NR|apply INC; right; exact I|apply INC; left; reflexivity]).
+  subst. apply NI. apply (in_map snd) in I. exact I.
+Qed.
+
+Section LayerA2.
+  Variable text : name -> str.
+  Variable sub : kid -> kid -> bool.
+
+  (** under the socket hypothesis the unique pair chosen for an import IS the import-first offer:
+      no hypothesis on the plug is needed any more *)
+  Lemma pick_matches_is_offer imps exps m t :
+    NoDup (map fst imps) -> tracks_distinct text (map fst imps) -> In (m, t) imps ->
+    pick (plug_matches text sub imps exps) m = offer text sub exps (m, t).
+  Proof.
+    intros ND TD Im. unfold plug_matches.
+    set (P := fun x : item => compat (text (fst x)) (text m) && sub (snd x) t).
+    set (E := fun x : item => N.eqb (fst x) m && sub (snd x) t).
+    set (f := fun e0 : name * kid => match find_target text imps (fst e0) with
+                                      | Some (m0, t0) => if sub (snd e0) t0 then [(fst e0, m0)] else []
+                                      | None => [] end).
+    assert (L : forall x, (P x = true -> f x = [(fst x, m)]) /\ (P x = false -> forall p, In p (f x) -> snd p <> m)).
+    { intros [e ke]. unfold P, f. cbn [fst snd].
+      destruct (find_target text imps e) as [[m' t']|] eqn:F.
+      - destruct (find_target_in _ _ _ _ _ F) as (Im' & C').
+        destruct (compat (text e) (text m)) eqn:C.
+        + assert (m' = m) as ->.
+          { apply TD; [apply (in_map fst) in Im'; exact Im'|apply (in_map fst) in Im; exact Im|].
+            eapply compat_trans; [rewrite compat_sym; exact C'|exact C]. }
+          rewrite (nodup_fst_inj _ _ _ _ ND Im' Im). cbn. split; [intros ->; reflexivity|].
+          intros ->. intros p [].
+        + cbn. split; [discriminate|]. intros _ p Ip. destruct (sub ke t'); [|destruct Ip].
+          destruct Ip as [<-|[]]. cbn. intros ->. rewrite C' in C. discriminate.
+      - split; [|intros _ p []]. intros Q. apply andb_prop in Q. destruct Q as (C & _). exfalso.
+        unfold find_target in F. destruct (alist_get N.eqb imps e); [discriminate|].
+        apply (find_none _ _ F) in Im. cbn in Im. congruence. }
+    assert (EX : forall l0, existsb (is_exact m) (flat_map f l0) = existsb E l0).
+    { intros l0. induction l0 as [|x xs IH]; [reflexivity|]. cbn [flat_map existsb]. rewrite existsb_app, IH. f_equal.
+      destruct (L x) as (LT & LF). destruct (P x) eqn:Px.
+      - rewrite (LT eq_refl). unfold is_exact. cbn. rewrite N.eqb_refl, andb_true_r, orb_false_r. unfold E.
+        unfold P in Px. apply andb_prop in Px. destruct Px as (_ & ->). rewrite andb_true_r. reflexivity.
+      - transitivity false.
+        + destruct (existsb (is_exact m) (f x)) eqn:Q; [|reflexivity]. apply existsb_exists in Q. destruct Q as (p & Ip & Q).
+          unfold is_exact in Q. apply andb_prop in Q. destruct Q as (_ & Q). apply N.eqb_eq in Q. destruct (LF eq_refl p Ip Q).
+        + unfold E. destruct (N.eqb_spec (fst x) m) as [Q|Q]; [|reflexivity]. unfold P in Px. rewrite Q, compat_refl in Px.
+          cbn in Px. rewrite Px. reflexivity. }
+    assert (FD : forall l0, find (targets m) (flat_map f l0) =
+                 match find P l0 with Some x => Some (fst x, m) | None => None end).
+    { intros l0. induction l0 as [|x xs IH]; [reflexivity|]. cbn [flat_map find]. rewrite find_app_.
+      destruct (L x) as (LT & LF). destruct (P x) eqn:Px.
+      - rewrite (LT eq_refl). unfold targets. cbn. rewrite N.eqb_refl. reflexivity.
+      - rewrite IH. destruct (find (targets m) (f x)) as [p|] eqn:Q; [|reflexivity]. apply find_some in Q. destruct Q as (Ip & Q).
+        unfold targets in Q. apply N.eqb_eq in Q. destruct (LF eq_refl p Ip Q). }
+    change (offer text sub exps (m, t)) with
+      (match find E exps with Some e => Some (fst e)
+       | None => match find P exps with Some e => Some (fst e) | None => None end end).
+    unfold pick. rewrite EX, FD.
+    destruct (find E exps) as [x|] eqn:FE.
+    - apply find_some in FE. destruct FE as (Ix & Ex).
+      assert (existsb E exps = true) as -> by (apply existsb_exists; eauto).
+      unfold E in Ex. apply andb_prop in Ex. destruct Ex as (Q & _). apply N.eqb_eq in Q. congruence.
+    - assert (existsb E exps = false) as ->.
+      { destruct (existsb E exps) eqn:Q; [|reflexivity]. apply existsb_exists in Q. destruct Q as (x & Ix & Ex).
+        rewrite (find_none _ _ FE x Ix) in Ex. discriminate. }
+      destruct (find P exps); reflexivity.
+  Qed.
+
+  Lemma pair_iff_offer imps exps e m t :
+    NoDup (map fst imps) -> tracks_distinct text (map fst imps) -> In (m, t) imps ->
+    (In (e, m) (plug_pairs text sub imps exps) <-> offer text sub exps (m, t) = Some e).
+  Proof.
+    intros ND TD Im. unfold plug_pairs. rewrite (proj2 (unique_pairs_spec _)).
+    rewrite (pick_matches_is_offer imps exps m t ND TD Im). tauto.
+  Qed.
+
+  Lemma pair_target_is_import imps exps e m :
+    In (e, m) (plug_pairs text sub imps exps) -> exists t, In (m, t) imps.
+  Proof.
+    intros I. apply unique_pairs_incl in I. apply in_plug_matches in I. destruct I as (ke & t & _ & F & _).
+    apply find_target_in in F. destruct F as (Im & _). eauto.
+  Qed.
+End LayerA2.
+
 (** * Part 2: the graph built by [plug] -- invariant and single operations *)
 Definition is_inst (nd : node) : Prop := exists sat, nk nd = NInst sat.
 
